@@ -211,6 +211,8 @@ type rewriter struct {
 	usedFS   bool
 	osName   string // local name of package "os" ("" if not imported)
 	timeName string
+	netName  string // local name of package "net" ("" if not imported)
+	usedNet  bool
 	mapFlds  map[string]bool // names of struct fields of map type declared in this package
 }
 
@@ -248,6 +250,8 @@ func rewriteFile(path, pkg string) error {
 			rw.osName = local
 		case "time":
 			rw.timeName = local
+		case "net":
+			rw.netName = local
 		}
 	}
 
@@ -296,6 +300,13 @@ func rewriteFile(path, pkg string) error {
 			sel.X = ast.NewIdent("simrt")
 			rw.usedRT = true
 		}
+		// the one place where the server dials out (tracker registration over UDP): the simulated network delivers,
+		// drops nothing and records every datagram for the scenario
+		if rw.netName != "" && id.Name == rw.netName && sel.Sel.Name == "Dial" && rw.pkg == "hotline" {
+			sel.X = ast.NewIdent("simnet")
+			sel.Sel = ast.NewIdent("DialOut")
+			rw.usedNet = true
+		}
 		if rw.osName != "" && id.Name == rw.osName && (rw.pkg == "internal/mobius" && fsFuncs[sel.Sel.Name] || rw.pkg == "hotline" && fsFuncsHotline[sel.Sel.Name]) {
 			sel.X = ast.NewIdent("simfs")
 			rw.usedFS = true
@@ -308,6 +319,9 @@ func rewriteFile(path, pkg string) error {
 	}
 	if rw.usedFS {
 		addImport(f, "simfs", simBase+"simfs")
+	}
+	if rw.usedNet {
+		addImport(f, "simnet", simBase+"simnet")
 	}
 
 	var buf bytes.Buffer
